@@ -436,7 +436,18 @@ template <int D> int run_nd(const std::string& out, long first, long nseq, int l
       NOp op;
       if (i == 0) { op.k = "NConstruct"; op.t = 1; op.R = rt_gen(D, rng, q % 2 == 0, false, D >= 4 ? 2 : 3, D >= 4 ? 2 : 3); op.want_contig = true; }
       else if (i == 1) { op.k = "NIotaAll"; op.t = 1; op.a = 1; op.forked = true; }
-      else if (next_forced < plan.size() && i < len - 1) { const Forced& f = plan[next_forced++]; op = make_multi<D>(y, 1, f.k, f.pos, f.code, f.a, f.b); }
+      else if (next_forced < plan.size() && i < len - 1) {
+        const Forced& f = plan[next_forced++];
+        if (f.k == "NConstruct") { op.k = f.k; op.t = 1; op.R = rt_gen(D, rng, q % 3 != 0, false, 3, D >= 4 ? 2 : 3); }
+        else if (f.k == "NRowResize") {
+          // an inner row through a[i]..[j]: same length shifted by one (1), one shorter (2), one longer (3)
+          op.k = f.k; op.t = 1;
+          if (!Obs<D>::walk(*y.s[0], rng, op.c, true)) { op.k = "NNop"; op.c.clear(); }
+          else { Array<1, float>* lf = Obs<D>::leaf_at(*y.s[0], op.c, 0); op.a = lf->get_min_index() + (f.pos == 1 ? 1 : 0); op.b = lf->get_max_index() + (f.pos == 1 ? 1 : f.pos == 2 ? -1 : 1); }
+        }
+        else if (f.k[1] == 'X' || f.k[1] == 'S' || f.k[1] == 'V' || f.k[1] == 'B') op = make_multi<D>(y, 1, f.k, f.pos, f.code, f.a, f.b);
+        else { op.k = f.k; op.t = 1; op.a = f.a; op.forked = true; if (y.s[0]->size_all() == 0 && op.k != "NIotaAll") op.k = "NContig"; }
+      }
       else op = choose<D>(rng, y, large_values<D>(y));
       g_cur = "\"seq\":" + std::to_string(q) + ",\"step\":" + std::to_string(i) + ",\"op\":" + nop_json(op);
       tr.flush_every(64);
